@@ -322,6 +322,18 @@ fn check_control(ctx: &mut Ctx, m: &SMessage, desc: &dyn Fn() -> Value) {
                 if b.len() == 65535 {
                     ctx.guard("message-65535");
                 }
+                // the same message appended to a writer that already holds 5 octets: the Length
+                // field must still be the number of octets emitted for this message
+                if let Some(c) = bridge::message_to_crate(m) {
+                    let mut w = VecWriter { data: vec![0xee; 5] };
+                    if guarded(|| c.write(&mut w)).is_ok() && w.data.len() >= 9 {
+                        let emitted = w.data.len() - 5;
+                        let field = ((w.data[7] as usize) << 8) | w.data[8] as usize;
+                        if field != emitted {
+                            viol(ctx, "C07 control-length-field-after-prefix".into(), format!("{emitted} octets emitted after a 5-octet prefix, Length field says {field}"));
+                        }
+                    }
+                }
                 ctx.tally("control-returned");
             }
             (Err(_), Err(e)) => {
@@ -451,7 +463,7 @@ fn check_hide_oversize(ctx: &mut Ctx, n: usize) {
     // original AVP of 6+n octets
     let a = SAvp::Plain { attr: 7, val: SVal::Bytes(ramp(n)) };
     let c = bridge::avp_to_crate(&a).unwrap();
-    let rv = rl2tp::avp::types::RandomVector { value: [1, 2, 3, 4] };
+    let rv = rl2tp::avp::types::RandomVector::from([1, 2, 3, 4]);
     let r = guarded(|| c.hide(b"secret", &rv, &[], &[0u8; 16]));
     let too_long = 6 + n > 1023;
     match (r, too_long) {
